@@ -6,8 +6,10 @@ INVARIANT ClassPrint
 INVARIANT ClassPick
 INVARIANT ClassFold
 INVARIANT ClassFirst
+INVARIANT ClassInvalid
 INVARIANT WitnessPrint
 INVARIANT WitnessPick
 INVARIANT WitnessFold
+INVARIANT WitnessInvalid
 INVARIANT DesignWellDefined
 CHECK_DEADLOCK FALSE
